@@ -66,7 +66,12 @@ class Recorder:
 
         def zeros(kind):
             def h(I, args, kwargs, node):
-                shp = args[0]
+                shp = args[0] if args else kwargs.get("shape")
+                for d in (shp.items if isinstance(shp, Tup) else [shp]):
+                    c = d.as_const() if isinstance(d, Expr) else None
+                    if (isinstance(d, Expr) and d.eq(alg.sym("nan"))) or (c is not None and (c.im != 0 or c.re != int(c.re) or c.re < 0)) or isinstance(d, str):
+                        import interp as _I
+                        raise _I.raise_exc("TypeError", node, "%r is not an array extent" % (d,))
                 dt = kwargs.get("dtype")
                 if getattr(dt, "kind", None) == "builtin":
                     dt = {"float": "float64", "int": "int64"}.get(dt.dotted, dt.dotted)  # dtype=float, dtype=object, ...
